@@ -292,7 +292,7 @@ def run_check(pid, tier, seed, keep=False):
         "violations": nviol,
     }
     json.dump(evid, open(evid_path, "w"), indent=1)
-    if not keep and not viol:
+    if not keep:   # the replay files carry everything needed to reproduce a violation; trace chunks are large
         shutil.rmtree(wd, ignore_errors=True)
     for ln in lines:
         print(ln)
